@@ -118,6 +118,13 @@ func c07LinesGen(r *rand.Rand) c07LineDoc {
 		}
 		d.blocks = append(d.blocks, "hosts")
 	}
+	// an inline map and an inline list of inline maps (sources / destinations of appends whose style differs)
+	// (no comment on the inline map's line: where yaml.v3 prints the line comment of an appended flow map is the
+	// recorded comment-migration finding of the tree family, not this family's business)
+	fmt.Fprintf(&sb, "inl: {retries: 3, timeout: %d}\n", r.IntN(90))
+	d.blocks = append(d.blocks, "inl")
+	fmt.Fprintf(&sb, "fl: [{a: 1}, {a: %d}]\n", r.IntN(9))
+	d.blocks = append(d.blocks, "fl")
 	fmt.Fprintf(&sb, "tail: end%s\n", cm())
 	d.blocks = append(d.blocks, "tail")
 	d.text = sb.String()
@@ -131,7 +138,8 @@ func cutBlock(out, k string) (rest []string, found bool) {
 	skipping := false
 	for _, ln := range lines {
 		if skipping {
-			if strings.HasPrefix(ln, " ") || strings.HasPrefix(ln, "-") || (strings.HasPrefix(ln, "#") && false) {
+			// (a flow collection that had to be broken over several lines closes with `}` / `]` in column 0)
+			if strings.HasPrefix(ln, " ") || strings.HasPrefix(ln, "-") || strings.HasPrefix(ln, "}") || strings.HasPrefix(ln, "]") {
 				continue
 			}
 			skipping = false
@@ -162,7 +170,15 @@ func c07LineCase(w *mon.Worker, r *rand.Rand) mon.Result {
 	if d.globMap != "" && r.IntN(2) == 0 {
 		return c07GlobDelete(d, r)
 	}
-	switch r.IntN(10) {
+	switch r.IntN(13) {
+	case 10:
+		// an inline map of the document appended to a block list: the map it was read from keeps its line
+		u = upd{fmt.Sprintf(`.%s += .inl`, seq), []string{seq}}
+	case 11:
+		// a block map of the document appended to an inline list of inline maps
+		u = upd{fmt.Sprintf(`.fl += .["%s"]`, d.mapKeys[0]), []string{"fl"}}
+	case 12:
+		u = upd{fmt.Sprintf(`.%s = .%s + [.inl] | .fl += [.["%s"]]`, seq, seq, d.mapKeys[0]), []string{seq, "fl"}}
 	case 7:
 		// a read one past the end of a sequence on the right-hand side: only `tail` changes
 		u = upd{fmt.Sprintf(`.tail = (.%s[%d] // "dflt")`, seq, d.seqLen[seq]), []string{"tail"}}
